@@ -188,6 +188,8 @@ type Resp struct {
 	Body        *BodySpec `json:"body,omitempty"`
 	Tag         []string  `json:"tag,omitempty"` // attribute, value
 	ContentType string    `json:"content_type,omitempty"`
+	// FuncCode: the status is given inside the response DSL (Response(func() { Code(202) }))
+	FuncCode bool `json:"func_code,omitempty"`
 }
 
 // ErrResp maps an error to a status code.
